@@ -132,6 +132,35 @@ def handle (op : String) (j : Json) : Except String Json := do
     let len ← getInt j "len"
     let out := (geoExtend cs len (ch.zip ((fw.map (· == 1)).zip (st.zip sp)))).map (fun r => [r.1, r.2])
     pure (reply (Json.mkObj [("iv", intListList out)]))
+  | "seq" =>
+    -- several calls on ONE interval object: merge with distances ds (in a row), then pileup, mask, sort;
+    -- the model is pure, so every step is computed from the original intervals
+    let I ← getIvs j "iv"
+    let size ← getNat j "size"
+    let ds ← getNatList j "ds"
+    let sortJ := fun (l : List Iv) => natListList ((isort lex3 (l.map (fun iv => ((0 : Nat), iv.1, iv.2)))).map (fun r => [r.1, r.2.1, r.2.2]))
+    let m := Json.mkObj [("merges", Json.arr (ds.map (fun dd => ivsJ (mergeVec dd I))).toArray),
+      ("pileup", natList (getPileup specPileup I size)), ("mask", boolList (maskDense I size)), ("sorted", sortJ I)]
+    let s := Json.mkObj [("merges", Json.arr (ds.map (fun dd => ivsJ (specMerge I dd size))).toArray),
+      ("pileup", natList (specPileup I size)), ("mask", boolList (specMask I size)), ("sorted", sortJ I)]
+    pure (reply m (some s))
+  | "jaccard_matrix" =>
+    -- `Geometry.jaccard_all_vs_all`: cell (i, j) is the Jaccard index of sets i and j, the diagonal stays 0
+    let sizes ← getNatList j "sizes"
+    let setsJ ← getArr j "sets"
+    let sets ← setsJ.mapM (fun sj => do
+      let rows ← sj.getArr?
+      let ll ← rows.toList.mapM asNatList
+      ll.mapM (fun l => match l with
+        | [c, a, b] => pure (c, (a, b))
+        | _ => throw "row must be [chrom, start, stop]"))
+    let on := fun (st : List (Nat × Iv)) (c : Nat) => (st.filter (fun r => r.1 == c)).map (·.2)
+    let cell := fun (f : List Iv → List Iv → Nat → Nat × Nat × Nat × Nat) (a b : List (Nat × Iv)) =>
+      jaccardF ((sizes.zipIdx.map (fun (sz, c) => f (on a c) (on b c) sz)).foldl add4 (0, 0, 0, 0))
+    let mat := fun (f : List Iv → List Iv → Nat → Nat × Nat × Nat × Nat) =>
+      Json.arr ((sets.zipIdx.map (fun (a, i) => Json.arr ((sets.zipIdx.map (fun (b, k) =>
+        if i == k then nat 0 else bitsOf (cell f a b))).toArray))).toArray)
+    pure (reply (Json.mkObj [("bits", mat contingency)]) (some (Json.mkObj [("bits", mat specContingency)])))
   | _ => throw s!"C08: unknown op {op}"
 
 end Drv.C08
